@@ -86,10 +86,10 @@ class FunctionTranslator:
         for n in ast.walk(fn):
             if isinstance(n, ast.Name) and isinstance(n.ctx, (ast.Store, ast.Del)):
                 self.locals.add(n.id)
-            if isinstance(n, (ast.FunctionDef, ast.AsyncFunctionDef, ast.Lambda, ast.ClassDef)) and n is not fn:
-                raise Unsupported(f"{where}: nested function / lambda / class at line {n.lineno}")
+            if isinstance(n, (ast.FunctionDef, ast.AsyncFunctionDef, ast.ClassDef)) and n is not fn:
+                raise Unsupported(f"{where}: nested function / class at line {n.lineno}")
             if isinstance(n, (ast.While, ast.With, ast.AsyncWith, ast.AsyncFor, ast.Global, ast.Nonlocal, ast.Await,
-                              ast.ListComp, ast.SetComp, ast.DictComp, ast.GeneratorExp, ast.Starred, ast.NamedExpr,
+                              ast.ListComp, ast.SetComp, ast.DictComp, ast.GeneratorExp, ast.NamedExpr,
                               ast.Import, ast.ImportFrom, ast.Match, ast.YieldFrom, ast.Slice)):
                 raise Unsupported(f"{where}: {type(n).__name__} at line {getattr(n, 'lineno', '?')}")
         self.check_aliasing()
@@ -133,7 +133,10 @@ class FunctionTranslator:
                     if depth(n.value.func.value) >= 1:
                         deep.add(r)
         loop_refs = self.ref_loops()
+        place = {self.place_alias(n)[0] for n in ast.walk(self.fn) if self.place_alias(n) is not None}
         for x, src in aliases.items():
+            if x in place:
+                continue     # rendered as the place d[k] itself (see seq)
             if x in mutated and x not in loop_refs:
                 raise Unsupported(f"{self.where}: '{x}' aliases part of '{src}' and is mutated in place")
             if src in deep and src != "self":
@@ -230,7 +233,21 @@ class FunctionTranslator:
     def call(self, e):
         if any(k.arg is None for k in e.keywords):
             raise Unsupported(f"{self.where}: **kwargs in a call at line {e.lineno}")
-        args = clist([self.expr(a) for a in e.args])
+        f = e.func
+        if isinstance(f, ast.Name) and f.id == "sorted" and "sorted" not in self.locals:
+            # sorted(e) / sorted(e, key=lambda x: k)  ->  ESorted e x k   (node for node; the lambda is not a value)
+            if len(e.args) != 1 or isinstance(e.args[0], ast.Starred) or any(k.arg != "key" for k in e.keywords):
+                raise Unsupported(f"{self.where}: sorted() with these arguments at line {e.lineno}")
+            if not e.keywords:
+                return f"(ESorted {self.expr(e.args[0])} {cstr('$k')} (EName {cstr('$k')}))"
+            lam = e.keywords[0].value
+            if not (isinstance(lam, ast.Lambda) and len(lam.args.args) == 1 and not lam.args.defaults
+                    and not lam.args.vararg and not lam.args.kwarg and not lam.args.kwonlyargs):
+                raise Unsupported(f"{self.where}: sorted() key is not a one-argument lambda at line {e.lineno}")
+            return f"(ESorted {self.expr(e.args[0])} {cstr(lam.args.args[0].arg)} {self.expr(lam.body)})"
+        # f(*x): node for node EStar (spliced by Interp's argument evaluation); a Starred anywhere else has no
+        # case in expr() and is rejected there
+        args = clist([f"(EStar {self.expr(a.value)})" if isinstance(a, ast.Starred) else self.expr(a) for a in e.args])
         kw = clist([f"({cstr(k.arg)}, {self.expr(k.value)})" for k in e.keywords])
         f = e.func
         if isinstance(f, ast.Name):
@@ -256,7 +273,87 @@ class FunctionTranslator:
             return f"(TSub {self.expr(t.value)} {self.expr(t.slice)})"
         raise Unsupported(f"{self.where}: assignment target {type(t).__name__} at line {t.lineno}")
 
+    def place_alias(self, s):
+        """x = d.setdefault(k, default) with d, k plain local names -> (x, d, k, default) else None"""
+        if isinstance(s, ast.Assign) and len(s.targets) == 1 and isinstance(s.targets[0], ast.Name) \
+                and isinstance(s.value, ast.Call) and isinstance(s.value.func, ast.Attribute) \
+                and s.value.func.attr == "setdefault" and isinstance(s.value.func.value, ast.Name) \
+                and len(s.value.args) == 2 and not s.value.keywords and isinstance(s.value.args[0], ast.Name) \
+                and s.value.func.value.id in self.locals and s.value.args[0].id in self.locals:
+            return s.targets[0].id, s.value.func.value.id, s.value.args[0].id, s.value.args[1]
+        return None
+
     def seq(self, stmts):
+        for i, s in enumerate(stmts):
+            al = self.place_alias(s)
+            if al is not None:
+                # The object bound to x IS the element d[k].  Python's reference semantics are rendered by reading and
+                # writing x as the place d[k] for the rest of the block.  Side conditions (else Unsupported): x has no other
+                # binding in the function; d and k are not rebound in the rest of the block; once `del d[...]` has been
+                # executed x is not used again in the block (the deleted object would live on only through x); the block
+                # is the body of the function or of a loop, so nothing after it can see x.
+                x, d, k, dflt = al
+                rest = stmts[i + 1:]
+                binds = [n for n in ast.walk(self.fn) if isinstance(n, ast.Name) and n.id == x
+                         and isinstance(n.ctx, (ast.Store, ast.Del))]
+                # other bindings of x: only as the target of a `for` whose body contains every other use of x
+                rebound_in = set()
+                for fo in ast.walk(self.fn):
+                    if isinstance(fo, ast.For) and any(isinstance(t, ast.Name) and t.id == x for t in ast.walk(fo.target)):
+                        for b in fo.body:
+                            rebound_in.update(id(n) for n in ast.walk(b))
+                        rebound_in.update(id(n) for n in ast.walk(fo.target))
+                if any(b is not s.targets[0] and id(b) not in rebound_in for b in binds):
+                    raise Unsupported(f"{self.where}: place alias '{x}' is bound more than once")
+                order = []
+
+                def visit(n):
+                    order.append(n)
+                    for ch in ast.iter_child_nodes(n):
+                        visit(ch)
+                for r in rest:
+                    visit(r)
+                for n in order:
+                    if isinstance(n, ast.Name) and n.id in (d, k) and isinstance(n.ctx, (ast.Store, ast.Del)):
+                        raise Unsupported(f"{self.where}: '{n.id}' rebound while '{x}' aliases {d}[{k}]")
+
+                def uses(node):
+                    return any(isinstance(n, ast.Name) and n.id == x for n in ast.walk(node))
+
+                def flow(block, deleted):
+                    """path-sensitive: may `del d[...]` have run before a use of x ?  -> deleted-after flag"""
+                    for st in block:
+                        if isinstance(st, ast.If):
+                            if deleted and uses(st.test):
+                                raise Unsupported(f"{self.where}: alias '{x}' used after del {d}[...]")
+                            deleted = flow(st.body, deleted) | flow(st.orelse, deleted)
+                        elif isinstance(st, (ast.For, ast.Try)):
+                            inner = st.body + (st.orelse if isinstance(st, ast.For) else
+                                               [h2 for h in st.handlers for h2 in h.body])
+                            if deleted and isinstance(st, ast.For) and uses(st.iter):
+                                raise Unsupported(f"{self.where}: alias '{x}' used after del {d}[...]")
+                            deleted = flow(inner, flow(inner, deleted))
+                        elif isinstance(st, ast.Delete) and any(root_name(t) == d for t in st.targets):
+                            deleted = True
+                        elif deleted and uses(st):
+                            raise Unsupported(f"{self.where}: alias '{x}' used after del {d}[...]")
+                    return deleted
+                flow(rest, False)
+                for n in ast.walk(self.fn):
+                    if isinstance(n, ast.Name) and n.id == x and n not in order and n not in binds \
+                            and id(n) not in rebound_in:
+                        raise Unsupported(f"{self.where}: alias '{x}' used outside the block of its binding")
+
+                class Sub(ast.NodeTransformer):
+                    def visit_Name(self, node):
+                        if node.id == x:
+                            return ast.copy_location(ast.Subscript(value=ast.Name(id=d, ctx=ast.Load()),
+                                                                   slice=ast.Name(id=k, ctx=ast.Load()), ctx=node.ctx), node)
+                        return node
+                import copy
+                rest2 = [ast.fix_missing_locations(Sub().visit(copy.deepcopy(r))) for r in rest]
+                call = ast.copy_location(ast.Expr(value=s.value), s)
+                return self.seq(list(stmts[:i]) + [call] + rest2)
         out = [self.stmt(s) for s in stmts]
         out = [s for s in out if s != "SPass"] or ["SPass"]
         acc = out[-1]
